@@ -55,6 +55,46 @@ theorem c15_progress (max : Nat) (es : List Ev) (s : St) (h : run (init max) es 
 theorem c15_finish_any_cause (s : St) (c : Nat) (w w' : Cause) :
     step s (.finish c w) = step s (.finish c w') := rfl
 
+/-- **C15 (a failed accept costs nothing).** A failing accept(2) call — with or without the loss of the
+    connection that was waiting — changes neither the free permits, nor the permit the listener holds, nor the
+    connections being served: the retry runs on the permit taken before the first attempt. -/
+theorem c15_accept_failure_free (s s' : St) (gone : Bool) (h : step s (.acceptFail gone) = some s') :
+    s'.permits = s.permits ∧ s'.holding = s.holding ∧ s'.handlers = s.handlers ∧ s'.max = s.max := by
+  simp only [step] at h
+  split at h
+  · simp only [Option.some.injEq] at h; subst h
+    cases gone <;> simp
+  · cases h
+
+/-- ... so after any number of failed attempts the listener can still accept on that permit -/
+theorem c15_accept_after_failures (s : St) (n : Nat) (s' : St)
+    (h : run s (List.replicate n (.acceptFail false)) = some s') (hp : s.pending ≠ []) (hn : 0 < n) :
+    (step s' .accept).isSome := by
+  induction n generalizing s with
+  | zero => omega
+  | succ n ih =>
+    simp only [List.replicate_succ, run] at h
+    cases hs : step s (.acceptFail false) with
+    | none => simp [hs] at h
+    | some s1 =>
+      simp only [hs] at h
+      have e : s1 = s ∧ s.holding = true := by
+        simp only [step] at hs
+        split at hs
+        · rename_i hh
+          simp only [Bool.false_eq_true, ↓reduceIte, Option.some.injEq] at hs
+          exact ⟨hs.symm, hh⟩
+        · cases hs
+      obtain ⟨rfl, hh⟩ := e
+      cases n with
+      | zero =>
+        simp only [List.replicate_zero, run, Option.some.injEq] at h; subst h
+        simp only [step, hh, ↓reduceIte]
+        cases hpd : s1.pending with
+        | nil => exact absurd hpd hp
+        | cons c rest => simp
+      | succ m => exact ih s1 h hp (by omega)
+
 /-! ### non-vacuity: three clients, limit 2 — two served, the third only after one of them ends
     (here: by a handler panic) -/
 
@@ -66,5 +106,10 @@ example : (run (init 2) demo).map (·.handlers) = some [2, 3] := by decide
 example : (run (init 2) (demo.take 7)).map (fun s => (s.handlers, s.pending, s.permits)) = some ([1, 2], [3], 0) := by decide
 /-- with no permit left the listener cannot accept the third client -/
 example : ((run (init 2) (demo.take 7)).bind (step · .acquire)) = none := by decide
+
+
+/-- limit 2, the first accept fails three times: both clients are served all the same, a third one waits -/
+example : (run (init 2) [.connect 1, .acquire, .acceptFail false, .acceptFail false, .acceptFail false, .accept,
+    .connect 2, .acquire, .accept, .connect 3]).map (fun s => (s.handlers, s.pending, s.permits)) = some ([1, 2], [3], 0) := by decide
 
 end ConnLimit
